@@ -162,9 +162,14 @@ func (w *world) build(s *spec) (ipld.Node, *lnode, error) {
 	switch s.kind {
 	case 'F':
 		data := fileBytes(s.size, w.uniq)
+		layout := s.layout
+		if layout >= 4 { // 4..7: the same four layouts over constant data: repeated chunks, identical files
+			layout -= 4
+			data = make([]byte, s.size)
+		}
 		var nd ipld.Node
 		var err error
-		switch s.layout {
+		switch layout {
 		case 0:
 			nd = merkledag.NewRawNode(data)
 			err = w.dag.Add(w.ctx, nd)
@@ -178,7 +183,7 @@ func (w *world) build(s *spec) (ipld.Node, *lnode, error) {
 			if err != nil {
 				return nil, nil, err
 			}
-			if s.layout == 2 {
+			if layout == 2 {
 				nd, err = balanced.Layout(db)
 			} else {
 				nd, err = trickle.Layout(db)
@@ -484,6 +489,28 @@ func genFile(r *vh.Rand) *spec {
 	return s
 }
 
+// a chain of `depth` nested directories (a few HAMT) with a chunked file at the bottom: deeper than any
+// recursion limit a traversal may silently carry
+func genDeep(r *vh.Rand, depth int) (*spec, []string) {
+	cur := genFile(r)
+	cur.layout, cur.chunk, cur.maxl, cur.size = 2+r.Intn(2), 16, vh.Pick(r, []int{2, 3}), r.Range(100, 400)
+	var names []string
+	for i := 0; i < depth; i++ {
+		nm := vh.Pick(r, []string{"d", "e", "x", "sub"}) + strconv.Itoa(i%7)
+		d := &spec{kind: 'D', names: []string{nm}, kids: []*spec{cur}}
+		if r.Chance(1, 6) {
+			d.kind, d.width = 'H', 8
+		}
+		if r.Chance(1, 4) {
+			d.names = append(d.names, "side")
+			d.kids = append(d.kids, &spec{kind: 'F', layout: r.Intn(2), size: r.Intn(20)})
+		}
+		names = append([]string{nm}, names...)
+		cur = d
+	}
+	return cur, names
+}
+
 func genSpec(r *vh.Rand, depth, maxDepth int) *spec {
 	if depth >= maxDepth || (depth > 0 && r.Chance(1, 2)) {
 		if r.Chance(1, 10) {
@@ -511,6 +538,18 @@ func genSpec(r *vh.Rand, depth, maxDepth int) *spec {
 			s.kids = append(s.kids, genSpec(r, depth+1, maxDepth))
 		}
 	}
+	// repeated blocks: the same (constant-data) file under two names, chunked with identical chunks
+	if r.Chance(1, 3) {
+		z := &spec{kind: 'F', layout: 4 + r.Intn(4), size: r.Range(1, 200), chunk: vh.Pick(r, []int{8, 16, 32}), maxl: vh.Pick(r, []int{2, 3, 174}), rawlv: r.Intn(2)}
+		for _, nm := range []string{"twin-a", "twin-b"} {
+			if !seen[nm] {
+				seen[nm] = true
+				zz := *z
+				s.names = append(s.names, nm)
+				s.kids = append(s.kids, &zz)
+			}
+		}
+	}
 	return s
 }
 
@@ -524,6 +563,11 @@ func allPaths(s *spec, prefix []string, out *[]pth) {
 	for i, k := range s.kids {
 		allPaths(k, append(prefix, s.names[i]), out)
 	}
+}
+
+// all nine combinations of ?car-dups= and Accept …;dups= (y, n, absent each)
+func genDups(r *vh.Rand) string {
+	return vh.Pick(r, []string{"y", "n", "-"}) + vh.Pick(r, []string{"y", "n", "-"})
 }
 
 func genRange(r *vh.Rand, size int) string {
@@ -599,6 +643,10 @@ func gen(r *vh.Rand, tier string, n int, emit func(vh.Case)) {
 		if root.kind == 'F' || root.kind == 'S' {
 			root = &spec{kind: 'D', names: []string{"f"}, kids: []*spec{root}}
 		}
+		var deepNames []string
+		if cr.Chance(1, 12) {
+			root, deepNames = genDeep(cr, cr.Range(25, 45))
+		}
 		var st []string
 		root.tokens(&st)
 		w := newWorld()
@@ -617,6 +665,16 @@ func gen(r *vh.Rand, tier string, n int, emit func(vh.Case)) {
 		}
 		var ps []pth
 		allPaths(root, nil, &ps)
+		if deepNames != nil {
+			// dag-scope=all at the root and at sub-paths of a deep chain, plus entity at the bottom
+			c.Ops = append(c.Ops, fmt.Sprintf("card - all - %s", genDups(cr)))
+			k := cr.Range(1, len(deepNames)-1)
+			c.Ops = append(c.Ops, fmt.Sprintf("card %s all - %s", segsTok(deepNames[:k]), genDups(cr)))
+			c.Ops = append(c.Ops, fmt.Sprintf("card %s - - %s", segsTok(deepNames[:cr.Range(1, 5)]), genDups(cr)))
+			c.Ops = append(c.Ops, fmt.Sprintf("card %s entity - %s", segsTok(deepNames[:len(deepNames)-1]), genDups(cr)))
+			emit(c)
+			continue
+		}
 		var files, others []pth
 		for _, p := range ps {
 			if p.s.kind == 'F' {
@@ -626,7 +684,13 @@ func gen(r *vh.Rand, tier string, n int, emit func(vh.Case)) {
 			}
 		}
 		// files: a few per case, prefer multi-block ones
-		sort.SliceStable(files, func(a, b int) bool { return files[a].s.layout > files[b].s.layout })
+		nblocks := func(f *spec) int {
+			if f.layout%4 < 2 || f.chunk == 0 {
+				return 1
+			}
+			return f.size/f.chunk + 1
+		}
+		sort.SliceStable(files, func(a, b int) bool { return nblocks(files[a].s) > nblocks(files[b].s) })
 		nf := min(len(files), cr.Range(1, 3))
 		for k := 0; k < nf; k++ {
 			p := files[k]
@@ -648,7 +712,7 @@ func gen(r *vh.Rand, tier string, n int, emit func(vh.Case)) {
 				if cr.Chance(4, 5) {
 					rng = strTok(genRange(cr, p.s.size))
 				}
-				c.Ops = append(c.Ops, fmt.Sprintf("car f%d %s %s %s", k, scope, rng, vh.Pick(cr, []string{"y", "n", "n", "-"})))
+				c.Ops = append(c.Ops, fmt.Sprintf("car f%d %s %s %s", k, scope, rng, genDups(cr)))
 			}
 		}
 		for q, nq := 0, cr.Range(2, 6); q < nq && len(others) > 0; q++ {
@@ -657,7 +721,7 @@ func gen(r *vh.Rand, tier string, n int, emit func(vh.Case)) {
 			if cr.Chance(1, 4) {
 				rng = strTok(genRange(cr, 10))
 			}
-			c.Ops = append(c.Ops, fmt.Sprintf("card %s %s %s %s", segsTok(p.segs), vh.Pick(cr, []string{"entity", "all", "block", "-"}), rng, vh.Pick(cr, []string{"y", "n", "-"})))
+			c.Ops = append(c.Ops, fmt.Sprintf("card %s %s %s %s", segsTok(p.segs), vh.Pick(cr, []string{"entity", "all", "all", "block", "-"}), rng, genDups(cr)))
 			if cr.Chance(1, 3) {
 				c.Ops = append(c.Ops, fmt.Sprintf("raw %s", segsTok(p.segs)))
 			}
@@ -679,7 +743,55 @@ func gen(r *vh.Rand, tier string, n int, emit func(vh.Case)) {
 
 // ---------------------------------------------------------------- exec
 
+// dups token: <url car-dups><Accept dups>, each y|n|-; a single char is the URL parameter only
+func dupsParts(d string) (urlD, hdrD string) {
+	if len(d) == 2 {
+		return d[:1], d[1:]
+	}
+	return d, "-"
+}
+
+// the effective preference: URL query parameter over Accept header (IPIP-523), default n
+func effectiveDups(d string) string {
+	u, h := dupsParts(d)
+	if u != "-" {
+		return u
+	}
+	if h != "-" {
+		return h
+	}
+	return "n"
+}
+
+// number of CIDs that occur more than once when the DAG below c is expanded as a tree
+func (w *world) repeatedBlocks(c cid.Cid) int {
+	count := map[string]int{}
+	var rec func(c cid.Cid)
+	rec = func(c cid.Cid) {
+		count[c.KeyString()]++
+		if c.Prefix().Codec == cid.Raw {
+			return
+		}
+		nd, err := w.dag.Get(w.ctx, c)
+		if err != nil {
+			panic(err)
+		}
+		for _, l := range nd.Links() {
+			rec(l.Cid)
+		}
+	}
+	rec(c)
+	n := 0
+	for _, k := range count {
+		if k > 1 {
+			n++
+		}
+	}
+	return n
+}
+
 type carResult struct {
+	contentType string
 	status    int
 	streamErr string
 	roots     []cid.Cid
@@ -705,13 +817,15 @@ func (w *world) request(segs []string, query url.Values, accept string) *httptes
 func (w *world) getCar(segs []string, scope, rng, dups string) *carResult {
 	q := url.Values{}
 	accept := ""
-	if dups == "-" {
+	ud, hd := dupsParts(dups)
+	if hd != "-" {
+		accept = "application/vnd.ipld.car; version=1; dups=" + hd
+	}
+	if ud != "-" {
+		q.Set("car-dups", ud)
+	}
+	if hd == "-" || len(segs)%2 == 0 { // with an Accept header, ?format=car is optional: alternate
 		q.Set("format", "car")
-	} else if len(segs)%2 == 0 { // alternate between the two ways of passing dups
-		q.Set("format", "car")
-		q.Set("car-dups", dups)
-	} else {
-		accept = "application/vnd.ipld.car; version=1; dups=" + dups
 	}
 	if scope != "-" {
 		q.Set("dag-scope", scope)
@@ -720,7 +834,7 @@ func (w *world) getCar(segs []string, scope, rng, dups string) *carResult {
 		q.Set("entity-bytes", unTok(rng))
 	}
 	rec := w.request(segs, q, accept)
-	res := &carResult{status: rec.Code, streamErr: rec.Header().Get("X-Stream-Error")}
+	res := &carResult{status: rec.Code, streamErr: rec.Header().Get("X-Stream-Error"), contentType: rec.Header().Get("Content-Type")}
 	if rec.Code != 200 {
 		return res
 	}
@@ -822,16 +936,35 @@ func (w *world) checkCar(o *vh.Out, what string, segs []string, target *lnode, s
 	if len(res.roots) != 1 || !res.roots[0].Equals(target.cid) {
 		o.Fail("car-wrong-root", "%s: roots %v, resolved content root %s", what, res.roots, target.cid)
 	}
-	// 3. duplicates only when requested
-	if dups != "y" {
+	// 3. duplicates iff the effective preference (URL over Accept header, default n) says y; the response's
+	//    own Content-Type must carry the same label
+	eff := effectiveDups(dups)
+	hasDup := false
+	{
 		seen := map[string]bool{}
 		for _, b := range res.blocks {
 			if seen[b.Cid().KeyString()] {
-				o.Fail("car-unrequested-duplicate", "%s: block %s repeated with dups=%s", what, b.Cid(), dups)
+				hasDup = true
+				if eff != "y" {
+					o.Fail("car-unrequested-duplicate", "%s: block %s repeated, effective dups=%s", what, b.Cid(), eff)
+				}
 				break
 			}
 			seen[b.Cid().KeyString()] = true
 		}
+	}
+	if !strings.Contains(res.contentType, "dups="+eff) {
+		o.Fail("car-dups-label-wrong", "%s: Content-Type %q, effective dups=%s", what, res.contentType, eff)
+	}
+	if eff == "y" && (scope == "all" || scope == "-") && res.streamErr == "" && !res.truncated {
+		if w.repeatedBlocks(target.cid) > 0 {
+			o.Kind("dups-y-on-repeated-blocks")
+			if !hasDup {
+				o.Fail("car-requested-duplicates-missing", "%s: the DAG repeats blocks but the CAR has none twice", what)
+			}
+		}
+	} else if eff != "y" && (scope == "all" || scope == "-") && w.repeatedBlocks(target.cid) > 0 {
+		o.Kind("dups-n-on-repeated-blocks")
 	}
 	if res.streamErr != "" || res.truncated {
 		return // sufficiency is judged by the caller (expected only for unsatisfiable ranges)
@@ -1093,6 +1226,7 @@ func exec(c vh.Case, o *vh.Out) {
 			sort.Ints(ls)
 			o.Kind("scope-" + scope)
 			o.Kind("dups-" + dups)
+			o.Kind("effective-dups-" + effectiveDups(dups))
 			if rng != "-" {
 				o.Kind("with-range")
 			}
